@@ -700,6 +700,31 @@ func run(c *runner.Ctx) {
 		c.Done(true, 4)
 	}
 
+	// field names of every length from 1 to 140 bytes (round 13; generated code has names such as
+	// XXX_NoUnkeyedLiteral and much longer ones), ASCII and with a multi-byte tail, three fields of that length per struct
+	c.Space("field-name-lengths")
+	for n := 1; n <= 140; n++ {
+		for _, tail := range []string{"", "é", "名"} {
+			if !c.Take() {
+				continue
+			}
+			if len(tail) >= n {
+				c.Done(false, 0)
+				continue
+			}
+			base := "N" + strings.Repeat("a", n-1-len(tail))
+			mk := func(first byte) string { return string(first) + base[1:] + tail }
+			sf := []reflect.StructField{{Name: mk('A'), Type: tInt.t}, {Name: mk('B'), Type: tString.t}, {Name: mk('C'), Type: reflect.SliceOf(tBool.t)}}
+			nt := reflect.StructOf(sf)
+			outer := reflect.StructOf([]reflect.StructField{{Name: mk('D'), Type: nt}, {Name: mk('E'), Type: reflect.PointerTo(nt)}, {Name: "Z", Type: tInt.t}})
+			for p := 0; p < 2; p++ {
+				checkFixed(c, ty{nt, fmt.Sprintf("three fields with names of %d bytes (tail %q), profile %d", n, tail, p), true}, val(nt, p).Interface())
+				checkFixed(c, ty{outer, fmt.Sprintf("nested under fields with names of %d bytes (tail %q), profile %d", n, tail, p), true}, val(outer, p).Interface())
+			}
+			c.Done(true, 4)
+		}
+	}
+
 	// field names beyond ASCII: exported means "starts with an upper-case letter" in Go's sense; lower-case two-byte
 	// initials (é, и, ω, ü), '_' and CJK initials are unexported
 	c.Space("field-names")
@@ -989,7 +1014,7 @@ func main() {
 	runner.Main(runner.Config{
 		Property:  "C20",
 		Technique: "bounded-exhaustive enumeration of struct types from a depth-bounded type grammar (reflect.StructOf) x value profiles; dumper output vs the standard encoder's document normalised by the documented deviations",
-		Rule: "types: level 1 = 14 scalar kinds (string, bool, all int/uint widths, float64, float32), slices and string-/int-keyed maps of them, five small structs (empty, one exported, all unexported, first unexported, two exported incl. bool) and pointers to them; " +
+		Rule: "(round 13: field names of every length 1..140 bytes, ASCII and with a two- / three-byte tail) types: level 1 = 14 scalar kinds (string, bool, all int/uint widths, float64, float32), slices and string-/int-keyed maps of them, five small structs (empty, one exported, all unexported, first unexported, two exported incl. bool) and pointers to them; " +
 			"level k+1 = {[]e, map[string]e, map[int64]e, struct{A e}, struct{a e; B e}, *struct{A e}, struct{A e; B e}} over level k; top-level structs with 0..3 fields, every field exported or unexported in every position, " +
 			"all 1- and 2-field structs over level 1, 3-field structs (thorough: full level 1; quick: 12-type subset), level 2 alone and next to level-1 / level-2 neighbours in both orders, level 3 (and a thinned level 4 on thorough); " +
 			"values: 4 profiles per type (all zero / nil; one entry; two-three entries with nested zero values and nil pointers; empty non-nil collections) plus alternative floats, extremes of every integer width; each as T and *T; " +
